@@ -25,7 +25,7 @@ from __future__ import annotations
 import ast
 from typing import Dict, List, Optional, Tuple
 
-from engines import pyfacts as pf
+from engines import pyfacts as pf, strparts
 from engines.common import AnalysisError, Ctx
 from rules.c17 import RecordingSite, call_pred, _is_attr, _nested_defs, _node, _stmts, _inside
 
@@ -46,45 +46,7 @@ FR = 'hail/python/hailtop/batch/resource.py'
 FB = 'hail/python/hailtop/batch/batch.py'
 
 Part = Tuple[str, str]
-
-
-def _parts(e: ast.AST) -> List[Part]:
-    """A string-building expression as a sequence of ('lit', text) / ('expr', source)."""
-    out: List[Part] = []
-
-    def add(p: Part) -> None:
-        if p[0] == 'lit' and out and out[-1][0] == 'lit':
-            out[-1] = ('lit', out[-1][1] + p[1])
-        elif not (p[0] == 'lit' and p[1] == ''):
-            out.append(p)
-
-    def rec(x: ast.AST) -> None:
-        if isinstance(x, ast.Constant) and isinstance(x.value, str):
-            add(('lit', x.value))
-        elif isinstance(x, ast.JoinedStr):
-            for v in x.values:
-                if isinstance(v, ast.FormattedValue):
-                    if v.conversion != -1 or v.format_spec is not None:
-                        raise AnalysisError(f'formatted value with conversion in {pf.nsrc(x)}')
-                    rec_val(v.value)
-                else:
-                    rec(v)
-        elif isinstance(x, ast.BinOp) and isinstance(x.op, ast.Add):
-            rec(x.left)
-            rec(x.right)
-        else:
-            rec_val(x)
-
-    def rec_val(x: ast.AST) -> None:
-        if isinstance(x, ast.Call) and isinstance(x.func, ast.Name) and x.func.id == 'str' and len(x.args) == 1 and not x.keywords:
-            x = x.args[0]
-        if isinstance(x, (ast.Constant, ast.JoinedStr)) or (isinstance(x, ast.BinOp) and isinstance(x.op, ast.Add)):
-            rec(x)
-        else:
-            add(('expr', pf.nsrc(x)))
-
-    rec(e)
-    return out
+_parts = strparts.parts
 
 
 def _single_return(ctx: Ctx, fn: pf.FuncDef, where: str, outside: Optional[ast.AST] = None) -> ast.Return:
